@@ -1,11 +1,13 @@
 mod c01;
 mod c03;
 mod c08;
+mod c09;
 mod asis;
 mod c10;
 mod c11;
 mod ordu;
 mod c13;
+mod c14;
 mod denote;
 mod universe;
 
@@ -50,6 +52,16 @@ fn main() {
         "c08" => {
             let rep = Report::new("C08", "exploration");
             let cov = c08::run(&rep);
+            rep.finish(cov)
+        }
+        "c09" => {
+            let rep = Report::new("C09", "model_checking");
+            let cov = c09::run(&rep);
+            rep.finish(cov)
+        }
+        "c14" => {
+            let rep = Report::new("C14", "model_checking");
+            let cov = c14::run(&rep);
             rep.finish(cov)
         }
         _ => {
